@@ -19,6 +19,8 @@ definition is emitted as a placeholder and its theorem fails -- a broken obligat
 silently skipped.
 """
 import re, sys, json, os
+sys.path.insert(0, os.path.dirname(os.path.abspath(__file__)))
+from rustexpr import TOK, TranslationError, tokenize, P, subst, fold, blank_comments
 
 REPO = os.environ.get('VERIF_REPO', '/repo')
 OUT = sys.argv[1] if len(sys.argv) > 1 else os.path.join(os.path.dirname(__file__), '..', 'lean', 'Dasp', 'Gen')
@@ -28,11 +30,9 @@ src = open(src_path).read()
 
 def strip_comments(s):
     # keep newlines so that line numbers survive
-    return re.sub(r'//[^\n]*', '', s)
+    return blank_comments(s)
 
 src_nc = strip_comments(src)
-
-from rustexpr import TOK, TranslationError, tokenize, P, subst, fold
 
 REP = {'i8': 'i8', 'i16': 'i16', 'I24': 'i32', 'i32': 'i32', 'I48': 'i64', 'i64': 'i64',
        'u8': 'u8', 'u16': 'u16', 'U24': 'i32', 'u32': 'u32', 'U48': 'i64', 'u64': 'u64'}
